@@ -43,6 +43,8 @@ FEED = dict(p_loss=0.02, n_foreign=(0, 1), max_polls=0)
 
 
 def make_spec(st, idx, tier):
+    if idx % 9 == 8:
+        return make_historical_spec(st, idx, tier)
     spec = C.state_spec(st, tier, WORLD, PROFILE, FEED, min_units=30)
     rng = st.storage
     gate_fails = chance(rng, 0.3)
@@ -224,8 +226,93 @@ def checker(spec):
     return Checker(spec)
 
 
+def make_historical_spec(st, idx, tier):
+    from checks import c10 as H
+
+    spec = H.make_historical_spec(st, idx, tier)
+    rng = st.storage
+    spec["kind"] = "historical_persistence"
+    spec["profile"]["app_env"] = choice(rng, ["local", "prod", "prod"])
+    spec["profile"]["save_output"] = [o for o in ["results", "data", "config"] if chance(rng, 0.6)]
+    if chance(rng, 0.5):
+        spec["profile"]["estimands"] = ["dem", "turnout"]
+    return spec
+
+
+def run_historical(spec, stats):
+    """HistoricalModelClient in the chosen environment: what it writes must be what save_output names."""
+    import copy
+    import json
+
+    import pandas as pd
+    from elexmodel.client import HistoricalModelClient
+    from nightsim import seams
+    from nightsim.framework import Violation
+    from nightsim.runner import FEED_COLS
+
+    world, p = spec["world"], spec["profile"]
+    eid, hid = world["election_id"], "2018-11-06_USA_G"
+    office, ut = world["office"], world["unit_type"]
+    cfg = copy.deepcopy(world["config"])
+    cfg[eid][0]["historical_election"] = [hid]
+    hcfg = {hid: copy.deepcopy(cfg[eid])}
+    bucket = seams.STORAGE.new_night()
+    bucket.seed_object(f"{ROOT}/{eid}/config/{eid}.json", json.dumps(cfg))
+    bucket.seed_object(f"{ROOT}/{hid}/config/{hid}.json", json.dumps(hcfg))
+    bucket.seed_object(f"{ROOT}/{hid}/data/{office}/data_{ut}.csv", pd.DataFrame(spec["hist"]).to_csv(index=False))
+    cur = pd.DataFrame(spec["live"])[FEED_COLS]
+    cur["geographic_unit_fips"] = cur["geographic_unit_fips"].astype(str)
+    seams.set_app_env(p["app_env"])
+    put0 = len(bucket.put_log)
+    out = []
+    with seams.record_file_writes() as fw:
+        try:
+            HistoricalModelClient().get_historical_evaluation(
+                cur, eid, office, list(p["estimands"]), list(p["prediction_intervals"]), p["threshold"], ut, pi_method=p["pi_method"],
+                aggregates=list(p["aggregates"]), features=list(p["features"]), model_parameters=copy.deepcopy(p["model_parameters"]),
+                save_output=list(p["save_output"]))
+            ok, err = True, None
+        except Exception as e:  # noqa: BLE001
+            ok, err = False, f"{type(e).__name__}: {e}"
+    seams.set_app_env("local")
+    keys = [x["key"] for x in bucket.put_log[put0:]]
+    stats.polls += 1
+    stats.evaluations += 1
+    if ok:
+        stats.polls_ok += 1
+    else:
+        stats.repo_errors[err.split(":")[0]] += 1
+    remote_ok = p["app_env"] != "local" and "results" in p["save_output"]
+    flags = dict(env=p["app_env"], estimator=p["pi_method"], gate="historical")
+    for k in keys:
+        if not remote_ok:
+            out.append(Violation(PROP, "unrequested_remote_write", f"historical evaluation wrote {k!r} with save_output={p['save_output']} in environment {p['app_env']!r}", dict(flags, what="historical")))
+        elif not re.match(rf"^{re.escape(ROOT)}/({re.escape(eid)}|{re.escape(hid)})/\S+$", k) or re.search(r"\s", k):
+            out.append(Violation(PROP, "bad_key", f"remote key {k!r} is not a whitespace-free path under the root and an election id", dict(flags, n_estimands=len(p["estimands"]))))
+    cwd = os.path.realpath(os.getcwd())
+    for ev, path in fw:
+        rp = os.path.realpath(path)
+        rel = os.path.relpath(rp, cwd) if rp.startswith(cwd + os.sep) else rp
+        allowed = ("config/", "data/") if ("config" in p["save_output"] or "data" in p["save_output"]) else ()
+        if not (rel.startswith(allowed) if allowed else False) and rel not in ("config", "data"):
+            out.append(Violation(PROP, "unrequested_local_write", f"historical evaluation wrote local {rel!r} with save_output={p['save_output']}", flags))
+    stats.probes["historical_evaluation:" + ("wrote_remote" if keys else "no_remote_write")] += 1
+    stats.state(("historical", p["app_env"], tuple(sorted(p["save_output"])), len(p["estimands"]), ok), bool(keys) or not remote_ok)
+    stats.sample = dict(kind="historical_persistence", night_seed=spec.get("night_seed"), profile={k: p[k] for k in ("app_env", "save_output", "estimands", "pi_method")}, keys=keys[:6])
+    return out, "hist"
+
+
 def run_custom(spec, stats):
     from nightsim.framework import NightExec
+
+    if spec.get("kind") == "historical_persistence":
+        old = os.getcwd()
+        with tempfile.TemporaryDirectory(prefix="c18h-") as d:
+            os.chdir(d)
+            try:
+                return run_historical(spec, stats)
+            finally:
+                os.chdir(old)
 
     old = os.getcwd()
     with tempfile.TemporaryDirectory(prefix="c18-") as d:
